@@ -65,13 +65,29 @@ def _setup(extra_prelude=""):
         f.unlink()
 
 
+def prescreen(programs):
+    recs = core.project([{"id": ci, "src": src} for ci, src in programs.items()], mode="items")
+    inp = [{"id": r["id"], "srcs": r["items"]} for r in recs if r["items"]]
+    if not inp:
+        return {}
+    bad = {}
+    for r in core.project(core.expand(inp, "syn1")):
+        for run in r["runs"]:
+            if run["verdict"] == "ok" and run["proj"]["parse"] != "ok":
+                bad.setdefault(r["id"], []).append("error: proc-macro derive produced unparsable tokens (expansion pre-screened in-process): " + str(run["proj"]["parse"])[:120])
+    return bad
+
+
 def build_and_run(programs, nshards=16, rounds=4, extra_prelude="", timeout=3000):
     """programs: dict case_id -> Rust source of `pub mod c<ID> { use super::*; … pub fn run() {…} }`.
     Returns (observations, compile_failures: {case_id: [rustc messages]}, stats)."""
     _setup()
     ids = sorted(programs)
-    exclude = {}
     stats = {"build_s": 0.0, "rounds": 0}
+    # rustc gives up on a crate at the first derive whose output does not parse, so such cases would be found one per shard and round:
+    # expand every derive input of every program in-process first and set those cases aside (they are reported as compile failures)
+    exclude = prescreen(programs)
+    stats["prescreened_unparseable"] = len(exclude)
     obs = []
     prelude = PRELUDE + extra_prelude
     pl = prelude.count("\n") + 1
@@ -100,6 +116,7 @@ def build_and_run(programs, nshards=16, rounds=4, extra_prelude="", timeout=3000
         t = time.time()
         p = core.run("cargo build --offline --bins --message-format=short 2>&1", cwd=RT, timeout=timeout)
         stats["build_s"] += time.time() - t
+        (core.OUT / f"rt_round{rnd}.log").write_text(p.stdout[-400000:])
         errs = defaultdict(list)
         for l in p.stdout.splitlines():
             m = re.match(r"^src/bin/s(\d+)\.rs:(\d+):\d+: (error.*)", l)
